@@ -17,6 +17,7 @@ import (
 	"strconv"
 	"strings"
 	"time"
+	"unicode"
 
 	"github.com/getkin/kin-openapi/openapi3"
 )
@@ -702,12 +703,28 @@ func getJSONFieldName(field reflect.StructField) string {
 	}
 
 	// Parse json tag (handle omitempty, etc.)
-	parts := strings.Split(jsonTag, ",")
-	if len(parts) > 0 && parts[0] != "" {
-		return parts[0]
+	if name := jsonTagName(jsonTag); name != "" {
+		return name
 	}
 
 	return field.Name
+}
+
+// jsonTagName returns the name part of a json tag if encoding/json accepts it as a field name and ""
+// otherwise: a name containing anything but letters, digits and the punctuation below (a quote, a
+// backslash, a control character, a currency sign ...) is ignored by encoding/json, which then uses
+// the Go field name and treats the field as untagged. The options after the name still apply.
+func jsonTagName(tag string) string {
+	name := strings.Split(tag, ",")[0]
+	for _, c := range name {
+		switch {
+		case strings.ContainsRune("!#$%&()*+-./:;<=>?@[]^_{|}~ ", c):
+			// Backslash and quote chars are reserved, but otherwise any punctuation chars are allowed in a tag name.
+		case !unicode.IsLetter(c) && !unicode.IsDigit(c):
+			return ""
+		}
+	}
+	return name
 }
 
 // jsonField is a struct field as encoding/json sees it.
@@ -766,7 +783,7 @@ func jsonFields(t reflect.Type) []jsonField {
 				if tag == "-" {
 					continue
 				}
-				tagName := strings.Split(tag, ",")[0]
+				tagName := jsonTagName(tag)
 				index := append(append([]int{}, l.index...), i)
 				if tagName != "" || !sf.Anonymous || ft.Kind() != reflect.Struct {
 					c := candidate{
